@@ -211,6 +211,11 @@ func (ea *ErrAnalysis) guardKind(in ssa.Instruction) string {
 			if n := a.Norm(); n.Sign && n.Cond.Op == "call" && n.Cond.Name == "errors.Is" && strings.Contains(n.Cond.String(), "@os.ErrDeadlineExceeded") {
 				dl = true
 			}
+			// created exactly when the capture handle's Read reported a zero count: a breach of the Source contract by the handle,
+			// not a property of a packet's bytes (that no module Source reports zero for content reasons is R09.1c)
+			if n := a.Norm(); n.Sign && n.Cond.Op == "binop" && n.Cond.Name == "==" && n.Cond.Args[1].IsConst("0") && n.Cond.Args[0].Op == "extract" && n.Cond.Args[0].Name == "0" && n.Cond.Args[0].Args[0].Op == "call" && n.Cond.Args[0].Args[0].Name == "iface:packets.Source.Read" {
+				dl = true
+			}
 		}
 		if !dl {
 			deadline = false
@@ -250,7 +255,7 @@ func (ea *ErrAnalysis) guardKind(in ssa.Instruction) string {
 		}
 	}
 	if deadline {
-		return "io" // created exactly when the read hit its deadline: timing, not content
+		return "io" // created exactly when the read hit its deadline or returned nothing: the handle, not content
 	}
 	if pk {
 		return "guard"
